@@ -1272,3 +1272,6 @@ func (m *SessionModel) MsgTypeKeyOfBuilder(v ssa.Value) string {
 	}
 	return "?"
 }
+
+// IsSessionVal reports whether v is a *Session.
+func (m *SessionModel) IsSessionVal(v ssa.Value) bool { return m.isSessionVal(v) }
